@@ -30,6 +30,18 @@ class CallbackBoom(Exception):
     pass
 
 
+class CallbackBase(BaseException):
+    """What a user's callback may also end with: not an Exception (like CancelledError from a cancelled future's .result())."""
+
+
+def _boom(kind):
+    if kind == "base":
+        raise CallbackBase("user callback failed")
+    if kind == "cancelled":
+        raise asyncio.CancelledError()
+    raise CallbackBoom("user callback failed")
+
+
 def make_datagram(d: dict) -> bytes:
     t = d["t"]
     rng = random.Random(d.get("seed", 7))
@@ -165,14 +177,14 @@ class BridgeRun:
                 item["got"].append(g)
                 self.order.append((item["p"], tag))
             if item is not None and item["raise"]:
-                raise CallbackBoom("user callback failed")
+                _boom(item["raise"])
             return
         if self.cur is None:
             self.log(ev="Stray", dev=g, after_stop=False)
         else:
             self.got.append(g)
         if self.raise_next:
-            raise CallbackBoom("user callback failed")
+            _boom(self.raise_next)
 
     def go(self) -> list[dict]:
         h = _LogCount()
@@ -239,6 +251,24 @@ class BridgeRun:
                 except Exception as x:  # noqa: BLE001
                     self.log(ev="Start", br=br, how=do, ok=False, exc=type(x).__name__)
                 self.owned[br - 1] |= set(self.net.udp.values()) - before      # endpoints this bridge object opened
+            elif do == "start-cancelled":
+                await vnet.settle(2)
+                self.log(ev="Cycle")
+                before_n = len(self.net.udp)
+                task = asyncio.ensure_future(bridge.start())
+                for _ in range(st["k"]):
+                    await asyncio.sleep(0)
+                done_before = task.done()
+                task.cancel()
+                await vnet.settle(2)
+                self.owned[br - 1] |= set(self.net.udp.values()) - before
+                if done_before:
+                    # the start had already finished (or failed) before the cancellation could hit it
+                    ok = task.exception() is None if not task.cancelled() else False
+                    self.log(ev="Start", br=br, how="start", ok=bool(ok), exc="" if ok else "raised")
+                else:
+                    nb = len([e for e in set(self.net.udp.values()) - before if not e.closing])
+                    self.log(ev="StartCancelled", br=br, k=st["k"], n=nb)
             elif do in ("stop", "leave", "leave-exc"):
                 try:
                     if do == "stop":
@@ -278,7 +308,7 @@ class BridgeRun:
                     elif d.get("t") == "mutate" and d["of"].get("t") == "bc":
                         d = dict(d, of=dict(d["of"], id=[(tag >> 16) & 255, (tag >> 8) & 255, tag & 255]))
                     data = make_datagram(d)
-                    self.burst[tag] = {"got": [], "raise": bool(it.get("cbraise")), "p": it["p"]}
+                    self.burst[tag] = {"got": [], "raise": it.get("cbraise") or False, "p": it["p"]}
                     handed = self.net.send_udp(self.loop, it["p"], data)
                     sent.append((tag, it, data, handed))
                 await vnet.settle(st.get("yields", 3))
@@ -309,7 +339,7 @@ class BridgeRun:
                 w0, l0, x0 = self.warn_n, self.logh.n, len(self.loop.exceptions)
                 self.got = []
                 self.cur = st
-                self.raise_next = bool(st.get("cbraise"))
+                self.raise_next = st.get("cbraise") or False
                 handed = self.net.send_udp(self.loop, st["p"], data)
                 await vnet.settle(2)
                 self.cur = None
